@@ -7,7 +7,7 @@ for n in $names; do
   d=seeded/$n
   props=$(python3 -c "import json;print(json.load(open('$d/meta.json'))['property'])")
   [ -f $d/also_checks ] && props="$props $(cat $d/also_checks)"
-  if ! git -C /repo apply --check $d/patch.diff 2>/dev/null; then echo -e "$n\t-\tpatch no longer applies"; continue; fi
+  if ! git -C /repo apply --check /verif/$d/patch.diff 2>/dev/null; then echo -e "$n\t-\tpatch no longer applies"; continue; fi
   det=""
   for p in $props; do
     out=$(tools/try_mutant.sh $n $p 2>&1 | head -1)
